@@ -232,6 +232,8 @@ class MultipleOutputBuffer {
         }
       }
       annotated_.clear();
+      // The batch is recycled: a later line may have the same address and length.
+      last_.clear();
     }
 
   private:
